@@ -228,16 +228,6 @@ theorem alignedAt_transfer (K K1 : List Node) (p : Nat) (hn : fnorm K = true) (h
 
 /-! ### what a mark step leaves alone -/
 
-theorem mapIdxCtx_outside (g : Nat → TypeId → Tok → Tok) (top : TypeId) (l : List Tok) (f t : Nat)
-    (hout : ∀ i p tok, ¬ (f ≤ i ∧ i < t) → g i p tok = tok) (i : Nat) (hi : ¬ (f ≤ i ∧ i < t)) :
-    (mapIdxCtx g top l)[i]? = l[i]? := by
-  rw [mapIdxCtx_getElem?]
-  by_cases h : i < l.length
-  · rw [if_pos h, hout i _ _ hi, List.getD_eq_getElem?_getD, List.getElem?_eq_getElem h]
-    simp
-  · rw [if_neg h]
-    exact (List.getElem?_eq_none (by omega)).symm
-
 theorem fromReplace_parts (S : Schema) (doc doc' : Node) (f t : Nat) (sl : Slice)
     (h : S.fromReplace doc f t sl = .ok doc') :
     ∃ ty a m K K', doc = .elem ty a m K ∧ doc' = .elem ty a m K' ∧
